@@ -526,13 +526,15 @@ class Queue(Greenlet):
         self._pool_spawn('store', self._load_all)
         gevent.spawn(self._wait_store)
         while True:
+            # The lock is not held while sleeping: flush() must not have to
+            # wait for the scheduler loop.
             self.queued_lock.acquire()
             try:
                 now = time.time()
                 self._check_ready(now)
-                self._wait_ready(now)
             finally:
                 self.queued_lock.release()
+            self._wait_ready(now)
 
 
 # vim:et:fdm=marker:sts=4:sw=4:ts=4
